@@ -76,3 +76,19 @@ PROPS['C17'] = dict(
     level_text="Lean 4 theorems C17_step_inv / C17_run_inv (0 <= slot <= size and the snapshot is never written, for every move sequence), C17_step_refines (every move is what the abstract cursor allows: HasNext/HasPrevious iff a value exists, GetNext/GetPrevious, zero value at the ends, ToSlot clamping and negative slots), C17_next_prev, C17_ends, C17_independent. Snapshot semantics are tied to the code by the correspondence run: the line carries the snapshot taken when the iterator was obtained and the real iterator is moved after the collection was mutated.",
     level_note="Storage aliasing (the snapshot array is private) is a runtime fact of Go slices; it is checked dynamically by the interleaved-mutation walks, not proved. Iterator[V]().MakeFromArray(a) called directly keeps the caller's array by design and is out of scope (the property speaks of iterators obtained from collections).",
 )
+
+PROPS['C09'] = dict(
+    id='C09',
+    modules=['CollectionModel.Props.C09'],
+    key=lambda l: (l.get('via'), l.get('op'), l.get('rk'), size_class(l.get('n', 0)) if l.get('n', 0) < 40 else 6 + min(l.get('n', 0) // 300, 4), l.get('out')),
+    nontrivial=lambda l: l.get('n', 0) >= 2,
+    rule="cases = one SortValues / ReverseValues / ShuffleValues call (input array, ranker, route: sorter / Array / List / "
+         "Catalog method, output); all arrays of length 0..6 (quick) / 0..9 (thorough) over a 4-value alphabet with 8 rankers "
+         "(natural, reversed, coarse, constant, always-Lesser, always-Greater, pure pseudo-random, call-counting stateful), all "
+         "arrays to length 4 through the three collection kinds, random shapes (duplicates, presorted, reversed, saw-tooth) up "
+         "to length 600 / 5000; non-trivial = length >= 2; distinct = distinct (route, operation, ranker, length class, outcome)",
+    exhaustive_subspaces="all arrays of length 0..6 (quick) / 0..9 (thorough) over the alphabet {1,4,5,9} through the sorter; length 0..4 over 3 values through Array, List, Catalog",
+    level_text="Lean 4 theorems C09_sort_perm_any_ranker (permutation for EVERY ranking function, including stateful/inconsistent ones, by induction over the merge passes as written: left head only on Lesser, copy-the-rest arms, doubling width, clamped middle/right), C09_sort_ascending (total preorder => no earlier value ranks Greater than a later one; chunk invariant of the bottom-up passes), C09_fuel_irrelevant (the doubling loop ends by width, i.e. terminates), C09_reverse / C09_reverse_involutive (half-length swap loop = List.reverse), C09_shuffle_perm, C09_collection_sort_delegates. Tied to /repo by the differential run (model output vs real output modulo rank-equal ties) and the executable spec.",
+    level_note="Correspondence compares outputs modulo the order inside rank-equal runs (stability is not part of the property) and only as multisets for inconsistent rankers. crypto/rand is external. The in-place buffer swapping of sortValues is modelled functionally (Go slices as lists).",
+    assumptions=["rankers are shared by name between harness and driver (identical arithmetic on both sides)"],
+)
